@@ -4,7 +4,7 @@
 From Coq Require Import List ZArith Bool.
 From Coq.Strings Require Import Byte.
 Import ListNotations.
-From SV Require Import Text G_attr C18_Model C18_Heap C18_Lemmas C18_Good C18_HeapLemmas C18_HeapOps C18_Refine C18_Obj C18_ObjLemmas.
+From SV Require Import Text G_attr C18_Model C18_Heap C18_Lemmas C18_Good C18_HeapLemmas C18_HeapOps C18_Refine C18_Obj C18_ObjLemmas C18_ObjIso C18_ObjElems G_c18_str C18_Conv.
 
 (* --- Attr/Meta as a mapping: get after set (the stored value is the recursively converted one) --- *)
 Theorem C18_get_set_same : forall g kvs k v, is_attr g = true ->
@@ -429,3 +429,63 @@ Example C18_witness_obj_copy :
              view 99 (oexec ops s1) 1 <> view 99 s1 1 /\
              view 99 (oexec ops s1) 0 = view 99 s1 0 /\ view 99 (oexec ops s1) 2 = view 99 s1 2.
 Proof. exact demo_obj_copy. Qed.
+
+(* y = x.copy() is ISOMORPHIC to x: the canonical dump (classes, slots, elements, scalars and the identity structure incl. internal
+   sharing and cycles) behind the new variable equals the dump behind the copied object, for every fuel *)
+Theorem C18_obj_graph_copy_iso : forall h l h' l' n, graph_copy h l = Some (h', l') -> gview n h' (HRef l') = gview n h (HRef l).
+Proof. exact graph_copy_iso. Qed.
+Print Assumptions C18_obj_graph_copy_iso.
+
+Theorem C18_obj_copy_is_isomorphic : forall i j q s s1 r n, i < length (snd s) -> ostep (OPure i PCopy j q) s = inl (s1, r) ->
+  exists l, onav_pure (fst s) (oreg s j) q = Some (HRef l) /\ view n s1 i = gview n (fst s) (HRef l).
+Proof. exact copy_is_isomorphic. Qed.
+Print Assumptions C18_obj_copy_is_isomorphic.
+
+(* what the in-place operations on a basket of ANY size do to the element OBJECTS and to the metadata object: element-wise
+   transformations keep the same objects in the same order, sort gives a permutation, filter(inplace=True) a selection in order;
+   the class and the metadata object are kept *)
+Theorem C18_obj_inplace_elements : forall d f j q s s' r l c, ostep (OInpl d f j q) s = inl (s', r) ->
+  onav_pure (fst s) (oreg s j) q = Some (HRef l) -> nth_error (fst s) l = Some c -> ocls c = KBasket ->
+  exists c', nth_error (fst s') l = Some c' /\ ocls c' = KBasket /\ ofs c' = ofs c /\ elems_rel f (oes c') (oes c).
+Proof. exact inplace_elements. Qed.
+Print Assumptions C18_obj_inplace_elements.
+
+(* container += other: the old element objects followed by the operand's element objects; the receiver is returned *)
+Theorem C18_obj_extend_elements : forall d j q j2 q2 s s' r, ostep (OBin d BExtend j q j2 q2) s = inl (s', r) ->
+  exists l l2 c c2, onav_pure (fst s) (oreg s j) q = Some (HRef l) /\ onav_pure (fst s) (oreg s j2) q2 = Some (HRef l2) /\
+    nth_error (fst s) l = Some c /\ nth_error (fst s) l2 = Some c2 /\ r = HRef l /\
+    nth_error (fst s') l = Some (set_elems c (oes c ++ oes c2)).
+Proof. exact extend_elements. Qed.
+Print Assumptions C18_obj_extend_elements.
+
+(* ================= mapping part: the conversion is the same function on every entry path ================= *)
+Theorem C18_conv_on_every_entry : forall g kvs k v, is_attr g = true ->
+  let stored := TMap g (aset k (conv v) kvs) in
+  apply_op (OSetItem [] k v) (TMap g kvs) = inl (stored, VNone) /\
+  apply_op (OSetAttr [] k v) (TMap g kvs) = inl (stored, VNone) /\
+  apply_op (OUpdate [] (TMap TgDict [(k, v)])) (TMap g kvs) = inl (stored, VNone) /\
+  (aget k kvs = None -> apply_op (OSetDefault [] k v) (TMap g kvs) = inl (stored, enc v)) /\
+  attr_init g [(k, v)] = TMap g [(k, conv v)] /\
+  apply_op (OGetItem [] k) stored = inl (stored, enc (conv v)) /\
+  apply_op (OGetAttr [] k) stored = inl (stored, enc (conv v)).
+Proof. exact conv_on_every_entry. Qed.
+Print Assumptions C18_conv_on_every_entry.
+
+(* lists are not descended: a dict inside a list stays a dict (meta.py:49-54), and to_dict . conv = id on JSON-like trees is
+   C18_to_dict_of_dict above *)
+Theorem C18_conv_list_not_descended : forall l, conv (TList l) = TList l.
+Proof. exact conv_list_not_descended. Qed.
+Print Assumptions C18_conv_list_not_descended.
+
+(* the regenerated table of observed behaviour: BioBasket.str.<m>() is the basket exactly when BioSeq.str.<m>() works in place,
+   for baskets with 0, 1 and 2 sequences *)
+Theorem C18_str_namespace_agrees : forallb str_row_ok STR_TABLE = true /\
+  existsb (fun row => str_eqb (fst row) (bs "lower"%bs) && N.eqb (fst (snd row)) 1) STR_TABLE = true /\
+  existsb (fun row => str_eqb (fst row) (bs "find"%bs) && N.eqb (fst (snd row)) 0) STR_TABLE = true.
+Proof. exact str_table_ok. Qed.
+Print Assumptions C18_str_namespace_agrees.
+
+Example C18_witness_obj_sort : let s := oexec [ONew 0 demo_basket] oinit in
+  exists s' l c c', ostep (OInpl None FSortLen 0 []) s = inl (s', HRef l) /\ oreg s 0 = HRef l /\ nth_error (fst s) l = Some c /\
+    ocls c = KBasket /\ nth_error (fst s') l = Some c' /\ oes c' = rev (oes c) /\ length (oes c) = 2.
+Proof. exact demo_sort. Qed.
